@@ -1645,9 +1645,9 @@ def run(ck: Ck) -> None:
             'c13_property_hypotheses_hold_for_todays_source':
                 'andb (c13_hyps g_exit_table (g_vcfg true (Some 1024%N)) g_place_table g_read_table g_ins_ext g_ins_dir g_del_prog g_ncodec g_wprog g_rprog g_ext_split g_parts g_join_table g_ncfg) '
                 '(c13_hyps g_exit_table (g_vcfg false None) g_place_table g_read_table g_ins_ext g_ins_dir g_del_prog g_ncodec g_wprog g_rprog g_ext_split g_parts g_join_table g_ncfg)',
-            'c13_error_path_hypotheses_hold_for_todays_source':
-                'andb (c13_hyps_r5 g_exit_table (g_vcfg true (Some 1024%N)) g_place_table g_read_table g_ins_ext g_ins_dir g_del_prog g_ncodec g_wprog g_rprog g_ext_split g_parts g_join_table g_ncfg g_rej_table) '
-                '(c13_hyps_r5 g_exit_table (g_vcfg false None) g_place_table g_read_table g_ins_ext g_ins_dir g_del_prog g_ncodec g_wprog g_rprog g_ext_split g_parts g_join_table g_ncfg g_rej_table)',
+            'c13_property_r5_hypotheses_hold_for_todays_source':
+                'andb (c13_hyps_r5 g_exit_table (g_vcfg true (Some 1024%N)) g_place_table g_read_table g_ins_ext g_ins_dir g_del_prog g_ncodec g_wprog g_rprog g_ext_split g_parts g_join_table g_ncfg g_rej_table g_walks_filenames g_walks_fileinfos) '
+                '(c13_hyps_r5 g_exit_table (g_vcfg false None) g_place_table g_read_table g_ins_ext g_ins_dir g_del_prog g_ncodec g_wprog g_rprog g_ext_split g_parts g_join_table g_ncfg g_rej_table g_walks_filenames g_walks_fileinfos)',
             'write_dirfile_program_is_the_directory_encoder': 'wprog_ok g_wprog',
             'write_dirfile_refuses_version_2_before_opening_the_file': 'g_write_refuses_v2',
             'write_dirfile_loops_ext_folder_file_sorted': 'andb (w_nest_ok g_wprog) (w_sorted g_wprog)',
